@@ -33,7 +33,7 @@ func (fc *FuncCtx) assign(st *State, lhs ast.Expr, v Term) {
 			return
 		}
 		v = fc.convertImplicit(st, v, vr.Type())
-		st.vars[vr] = fc.compact(Term{S: v.S, T: vr.Type(), Const: v.Const})
+		st.vars[vr] = fc.compact(Term{S: v.S, T: vr.Type(), Const: v.Const, Static: v.Static})
 	case *ast.SelectorExpr:
 		if id, ok := x.X.(*ast.Ident); ok {
 			if _, isPkg := fc.info.ObjectOf(id).(*types.PkgName); isPkg {
@@ -395,7 +395,7 @@ func (fc *FuncCtx) execAssign(st *State, lhs, rhs []ast.Expr, define bool, n ast
 			if id, ok := l.(*ast.Ident); ok && id.Name != "_" {
 				if obj, ok := fc.info.Defs[id].(*types.Var); ok {
 					v := fc.convertImplicit(st, vals[i], obj.Type())
-					st.vars[obj] = fc.compact(Term{S: v.S, T: obj.Type(), Const: v.Const})
+					st.vars[obj] = fc.compact(Term{S: v.S, T: obj.Type(), Const: v.Const, Static: v.Static})
 					continue
 				}
 			}
@@ -541,6 +541,9 @@ func (fc *FuncCtx) execSwitch(st *State, x *ast.SwitchStmt, label string) *State
 		b := st.clone()
 		b.guard = and(st.guard, not(prev), cond)
 		prev = or(prev, cond)
+		if b.guard == "false" {
+			continue // statically excluded (constant tag and case values)
+		}
 		for _, s := range cc.Body {
 			if br, ok := s.(*ast.BranchStmt); ok && br.Tok == token.FALLTHROUGH {
 				fc.fail(s, "fallthrough not supported")
@@ -598,6 +601,9 @@ func (fc *FuncCtx) execTypeSwitch(st *State, x *ast.TypeSwitchStmt, label string
 		b := st.clone()
 		b.guard = and(st.guard, not(prev), cond)
 		prev = or(prev, cond)
+		if b.guard == "false" {
+			continue // statically excluded (constant tag and case values)
+		}
 		if obj, ok := fc.info.Implicits[cc].(*types.Var); ok {
 			if len(cc.List) == 1 {
 				b.vars[obj] = Term{S: val.S, T: obj.Type()}
